@@ -262,6 +262,8 @@ def c01_rf18(run):
     rf_flow.rf70(run)
     run.min_instances('RF70', 4)
     rf_flow.rf18b(run)
+    rf_flow.rf32t(run)
+    run.min_instances('RF32t', 56)
     rf_flow.rf67(run, units=('gen',))
 
 
